@@ -327,6 +327,13 @@ func (n *Node) WaitSynced(target uint32, o WaitOpts) error {
 		if att > lim {
 			return fmt.Errorf("%w: height %d requested %d times; last daemon error: %s", ErrWedged, last+1, att, LastDaemonError())
 		}
+		if idle := n.Fake.IdlePolls(); idle > 80 {
+			// the upstream node has announced a higher height 80 times in a row and the daemon has not asked for
+			// a block since: it takes itself for synced at a height its database does not have
+			if s2, err2 := n.Synced(); err2 == nil && s2 < target {
+				return fmt.Errorf("%w: the daemon has polled the upstream height %d times without requesting block %d (database at %d); last daemon error: %s", ErrWedged, idle, s2+1, s2, LastDaemonError())
+			}
+		}
 		n.mu.Lock()
 		ex := n.exited
 		n.mu.Unlock()
